@@ -36,7 +36,9 @@ theorem inv_lockPrelude (h k : Nat) : ∀ (fuel : Nat) (a : Api) (limit : Limit)
             (script.head?.getD defaultRound).acts hstep
           split
           · exact hi2
-          · exact ih _ _ _ _ hi2
+          · split
+            · exact hi2
+            · exact ih _ _ _ _ hi2
       · exact hstep
 
 theorem inv_lock (a : Api) (v : Variant) (h k : Nat) (limit : Limit) (h0 : Nat) (hi : Inv a.s) :
